@@ -69,6 +69,40 @@ def path_case(live, garbage, n):
     return {"id": f"path-{live}-{garbage}-{n}", "fresh": True, "tag": f"path:{live}:{garbage}", "steps": steps}
 
 
+# Heap.tla C19b (precision): after a full collection a slot is marked only if it is reachable from the roots AS THEY ARE
+# NOW.  Storage that WAS a root (or reachable from one) during an earlier full collection and has been released since
+# must be reclaimed by the next ones - whatever kind of root held it.
+MK = "(let loop ([i 0] [acc '()]) (if (< i 5000) (loop (+ i 1) (cons (box i) acc)) acc))"
+FORMER_ROOTS = {
+    # kind of root: (hold while a full collection runs, release)
+    "global": ([f"(define held@@ {MK})", "(#%gc-collect)"], ["(begin (set! held@@ #f) 'released)"]),
+    # (a shadowed slot keeps its value until the global-slot recycler has run - policy: after 100 shadowings; the
+    #  host op forces that point, "eventually" starts there)
+    "shadowed-global": ([f"(define held@@ {MK})", "(#%gc-collect)"], ["(define held@@ 0)", {"op": "force_recycle"}]),
+    "global-vector": ([f"(define held@@ (list->vector {MK}))", "(#%gc-collect)"], ["(begin (set! held@@ #f) 'released)"]),
+    "closure-capture": ([f"(define held@@ (let ([data {MK}]) (lambda () (length data))))", "(#%gc-collect)"], ["(begin (set! held@@ #f) 'released)"]),
+    "box-in-global": ([f"(define held@@ (box {MK}))", "(#%gc-collect)"], ["(begin (set-box! held@@ '()) 'released)"]),
+    "stack-local": ([f"(define (hold@@) (let ([data {MK}]) (#%gc-collect) (length data)))", "(emit (hold@@))"], []),
+    "argument-temporary": ([f"(define (f@@ a b) (length a))", f"(emit (f@@ {MK} (#%gc-collect)))"], []),
+    "finished-thread": ([f"(emit (thread-join! (spawn-native-thread (lambda () (let ([data {MK}]) (#%gc-collect) (length data))))))"], []),
+    "continuation": ([f"(define held@@ #f) (emit (let ([data {MK}]) (+ (call/cc (lambda (k) (set! held@@ k) 0)) (length data))))", "(#%gc-collect)"],
+                     ["(begin (set! held@@ #f) 'released)"]),
+    "hash-in-global": ([f"(define held@@ (hash 'k {MK}))", "(#%gc-collect)"], ["(begin (set! held@@ #f) 'released)"]),
+    "host-rooted": ([f"(define held@@ {MK})", {"op": "root:held@@"}, "(begin (set! held@@ 0) 'host-only)", "(#%gc-collect)"], [{"op": "unroot_all"}]),
+}
+
+
+def former_root_case(kind):
+    hold, release = FORMER_ROOTS[kind]
+    def st(x):
+        return dict(x, **{"class": "ok"}) if isinstance(x, dict) else {"src": x, "class": "any" if x.startswith("(emit") else "ok"}
+    steps = [st(x) for x in hold + release]
+    # two full collections after the release: the storage is garbage, and the second one sees no trace of the first
+    steps += [{"src": "(#%gc-collect)", "class": "ok"}, {"src": "(#%gc-collect)", "class": "ok"},
+              {"op": "heap_stats", "class": "ok", "emit": ["slots<=bound", "accounting:exact", "live:small", "slots<=bound", "accounting:exact", "live:small"]}]
+    return {"id": f"former-root-{kind}", "fresh": True, "tag": f"former-root:{kind}", "steps": steps}
+
+
 WEAK = [
     # a weak box whose target has become unreachable reports so after a collection
     ("weak-dropped", ["(define wb@@ (let ([b (box 1)]) (make-weak-box b)))", "(#%gc-collect)", "(emit (weak-box-value wb@@))"], ["#false"]),
@@ -89,6 +123,7 @@ def run(tier, seed):
     n = 120000 if tier == "quick" else 1500000
     cases = [case(name, pat, n, "gc") for name, pat in PATTERNS.items()]
     cases += [path_case(lv, g, 30000 if tier == "quick" else 400000) for lv in LIVE for g in GARBAGE]
+    cases += [former_root_case(k) for k in FORMER_ROOTS]
     for name, srcs, exp in WEAK:
         steps = [{"src": s, "class": "ok"} for s in srcs]
         steps[-1]["emit"] = exp
@@ -113,7 +148,8 @@ def run(tier, seed):
                      f"x {n} iterations twice on the real engine: after a full collection at most 2000 slots are still marked reachable, the slot count stays under a fixed bound and "
                      f"the accounted free count equals the number of free slots (heap_stats hook); weak boxes of dropped targets report #false after a collection; "
                      f"accounting sensor on in every case (C19a evaluated whenever a slot is handed out after a collection / growth / compaction), and the product "
-                     f"live set (none / boxes / vectors / both) x garbage allocation path ({', '.join(GARBAGE)}) so that every allocation path triggers collections")
+                     f"live set (none / boxes / vectors / both) x garbage allocation path ({', '.join(GARBAGE)}) so that every allocation path triggers collections; "
+                     f"former roots (C19b): 5000 boxes held by each kind of root ({', '.join(FORMER_ROOTS)}) while a full collection runs, then released: two collections later at most 2000 slots are marked")
     r.notes.append(f"accounting sensor: {acct_checks} comparisons of accounted vs actual free slots after collections / growth / compaction")
     return r.finish()
 
